@@ -190,8 +190,11 @@ class Result:
             "assumptions": self.assumptions, "wall_s": round(time.time() - self.t0, 2),
             "violations": len(self.violations), "known_findings_seen": self.known_seen, "notes": self.notes,
         }
-        os.makedirs(os.path.join(VERIF, "evidence"), exist_ok=True)
-        json.dump(ev, open(os.path.join(VERIF, "evidence", self.prop + ".json"), "w"), indent=1)
+        # evidence/ only ever describes runs against /repo itself; trial runs against a scratch worktree
+        # (VERIF_REPO) write next to the replays instead
+        evdir = "evidence" if os.path.realpath(REPO) == "/repo" else os.path.join("replays", "evidence-alt")
+        os.makedirs(os.path.join(VERIF, evdir), exist_ok=True)
+        json.dump(ev, open(os.path.join(VERIF, evdir, self.prop + ".json"), "w"), indent=1)
         for k in self.known_seen:
             print("KNOWN-FINDING: property=%s %s" % (self.prop, k))
         if self.violations:
